@@ -442,10 +442,45 @@ Example parse_float_known_values :
      0]%Z%list.
 Proof. vm_compute. reflexivity. Qed.
 
+(** * Soundness of the identity check *)
+Theorem check_identities_sound specs ws ids :
+  check_identities specs ws ids = true -> identities_agree specs ws ids.
+Proof.
+  unfold check_identities, identities_agree. rewrite !andb_true_iff.
+  intros [[[[H1 H2] H3] H4] H5].
+  apply strs_eqb_sound in H1. rewrite forallb_forall in H2, H4, H5.
+  split; [exact H1|]. split; [apply nodupb_sound; exact H3|]. split.
+  - intros s Hs.
+    assert (Hin : In (sp_name s) (map fst ws)) by (rewrite <- H1; apply in_map; exact Hs).
+    apply in_map_iff in Hin. destruct Hin as [[k w] [Hk Hkw]]. simpl in Hk. subst k.
+    specialize (H2 _ Hkw). specialize (H4 _ Hkw). simpl in H2, H4.
+    apply String.eqb_eq in H2.
+    destruct (lookup_gen (sp_name s) ids) as [e|]; [|discriminate].
+    exists w, e. unfold identity_ok_b in H4. rewrite !andb_true_iff in H4.
+    destruct H4 as [[[[[[[[A1 A2] A3] A4] A5] A6] A7] A8] A9].
+    apply String.eqb_eq in A1. apply String.eqb_eq in A3. apply String.eqb_eq in A4.
+    apply String.eqb_eq in A5. apply String.eqb_eq in A7.
+    repeat split; auto; try congruence.
+    + intro E. rewrite E in A8. discriminate.
+    + rewrite forallb_forall in A9. specialize (A9 _ H). unfold method_ok_b in A9. simpl in A9.
+      apply andb_true_iff in A9. destruct A9 as [B1 _]. apply negb_true_iff in B1.
+      intro E. subst f. discriminate.
+    + rewrite forallb_forall in A9. specialize (A9 _ H). unfold method_ok_b in A9. simpl in A9.
+      apply andb_true_iff in A9. destruct A9 as [_ B2]. apply negb_true_iff in B2.
+      intro E. subst f. discriminate.
+  - intros k e Hke. specialize (H5 _ Hke). simpl in H5. apply mem_str_In in H5.
+    rewrite <- H1 in H5. apply in_map_iff in H5. destruct H5 as [s [E Hs]]. exists s; auto.
+Qed.
+
 (** * Data theorems: what was regenerated today *)
 Theorem catalogue_matches_specs :
   catalogue_agrees Gen.Specs.all Gen.CatalogDump.catalog Gen.Specs.spec_count.
 Proof. apply check_catalogue_sound. vm_compute. reflexivity. Qed.
+
+(** every catalogue entry IS the generated wrapper of the spec of that name *)
+Theorem catalogue_entries_are_generated_wrappers :
+  identities_agree Gen.Specs.all Gen.Specs.wrappers Gen.CatalogDump.catalog_identity.
+Proof. apply check_identities_sound. vm_compute. reflexivity. Qed.
 
 (** the Go translator's tokenisation (Go regexp, strings.Split, exact decimals)
     equals the one computed here from the raw strings, for every parameter *)
@@ -463,6 +498,25 @@ Qed.
 Theorem synthetic_corpus_matches :
   catalogue_agrees Gen.SynthSpecs.all Gen.SynthCatalog.catalog Gen.SynthSpecs.spec_count.
 Proof. apply check_catalogue_sound. vm_compute. reflexivity. Qed.
+
+Theorem synthetic_entries_are_generated_wrappers :
+  identities_agree Gen.SynthSpecs.all Gen.SynthSpecs.wrappers Gen.SynthCatalog.catalog_identity.
+Proof. apply check_identities_sound. vm_compute. reflexivity. Qed.
+
+(** the check is not vacuous: an entry whose dynamic type embeds the wrapper is rejected *)
+Example identity_check_rejects_embedding_type :
+  let w := {| wi_file := "models/functions/generated_Input.go"; wi_pkg := "m/models/functions";
+              wi_name := "Input"; wi_type := "*functions.Input" |} in
+  let ms := [("Description", "<autogenerated>"); ("Run", "models/functions/input.go")] in
+  identity_ok_b w {| ei_type := "*functions.blockInput"; ei_ptr_to_struct := true; ei_pkg := "m/models/functions";
+                     ei_name := "blockInput"; ei_second_type := "*functions.blockInput"; ei_fresh := true;
+                     ei_factory := "m/models/functions.buildBlockInput"; ei_factory_file := "models/functions/input.go";
+                     ei_methods := ms |} = false
+  /\ identity_ok_b w {| ei_type := "*functions.Input"; ei_ptr_to_struct := true; ei_pkg := "m/models/functions";
+                        ei_name := "Input"; ei_second_type := "*functions.Input"; ei_fresh := true;
+                        ei_factory := "m/models/functions.buildInput"; ei_factory_file := "models/functions/generated_Input.go";
+                        ei_methods := [("Description", "models/functions/generated_Input.go")] |} = true.
+Proof. vm_compute. split; reflexivity. Qed.
 
 Theorem synthetic_tokens_agree :
   forall s, In s Gen.SynthSpecs.all -> forall p, In p (sp_params s) -> tokens_agree p = true.
